@@ -48,6 +48,12 @@ func TestVerif_C36(t *testing.T) {
 		dynKind, dynDownstream := "", false
 		if ci%2 == 1 {
 			dynKind, dynDownstream = verifkit.Pick(rng, "dynamic", "emadynamic", "emathroughput", "windowedthroughput", "totalthroughput"), rng.Bool()
+			// no stray reloads in these cases, so that "a reload cleared the dynsamplers"
+			// and "shutdown stopped them" stay two separate observations
+			reloadDuringStop = false
+		}
+		isDynsamplerGoroutine := func(g e2Goroutine) bool {
+			return strings.HasPrefix(g.CreatedBy, "github.com/honeycombio/dynsampler-go.")
 		}
 		// Fixed strata (case index mod 6), so that every tier has each kind of shutdown:
 		//  0 decided traces whose spans still wait in an upstream batch
@@ -283,6 +289,12 @@ func TestVerif_C36(t *testing.T) {
 					return
 				}
 				reloads++
+				// the reload replaced the sampler by a plain rules sampler: the dynsamplers of
+				// the previous configuration must have been stopped by it
+				if left := cl.LeftoverGoroutinesWhere(isDynsamplerGoroutine); len(left) > 0 && k == 1 {
+					run.Violation("C36/graceful-stop/goroutine-left-running/dynsampler", "a config reload replaced the sampler, but the goroutine dynsampler-go runs for the previous sampler is still alive",
+						map[string]any{"goroutines": left, "sampler": dynKind, "downstream_of_rule": dynDownstream, "after_reload": k})
+				}
 			}
 		}
 		decidable := 0 // traces whose decision is due before shutdown when the collector is left to work
@@ -647,11 +659,9 @@ func TestVerif_C36(t *testing.T) {
 		}
 
 		// (c') nor a goroutine Refinery started inside dynsampler-go for a dynamic sampler
-		dynLeft := cl.LeftoverGoroutinesWhere(func(g e2Goroutine) bool {
-			return strings.HasPrefix(g.CreatedBy, "github.com/honeycombio/dynsampler-go.")
-		})
-		if len(dynLeft) > 0 {
-			run.Violation("C36/graceful-stop/goroutine-left-running/dynsampler", "a goroutine started by dynsampler-go for one of this node's samplers is still running after Stop returned",
+		dynLeft := cl.LeftoverGoroutinesWhere(isDynsamplerGoroutine)
+		if len(dynLeft) > 0 && reloads == 0 {
+			run.Violation("C36/graceful-stop/goroutine-left-running/dynsampler-not-stopped-at-shutdown", "a goroutine started by dynsampler-go for one of this node's samplers is still running after Stop returned (no reload was delivered in this case)",
 				map[string]any{"goroutines": dynLeft, "sampler": dynKind, "downstream_of_rule": dynDownstream, "reloads": reloads, "stratum": stratum, "trace_send_kept": post["trace_send_kept"]})
 		}
 		run.Count("spans_acked_before_shutdown", int64(len(acked)))
